@@ -1,7 +1,16 @@
 use crate::{AsepriteParseError, Result};
 use byteorder::{LittleEndian, ReadBytesExt};
 use flate2::read::ZlibDecoder;
-use std::io::{Cursor, Read};
+use std::io::{self, Cursor, Read};
+
+// Sizes and counts stored in the file are not trusted for up-front
+// allocations, because they may be far larger than the data that is actually
+// present. Buffers start at most this large and grow as data arrives.
+const MAX_INITIAL_CAPACITY: usize = 64 * 1024;
+
+fn initial_capacity(declared_size: usize) -> usize {
+    declared_size.min(MAX_INITIAL_CAPACITY)
+}
 
 fn to_ase(e: std::io::Error) -> AsepriteParseError {
     e.into()
@@ -54,17 +63,29 @@ where
         Ok(s)
     }
 
-    pub(crate) fn read_exact(&mut self, buffer: &mut [u8]) -> Result<()> {
-        self.input.read_exact(buffer).map_err(to_ase)
-    }
-
     pub(crate) fn skip_reserved(&mut self, count: usize) -> Result<()> {
         let mut ignored = vec![0_u8; count];
         self.input.read_exact(&mut ignored).map_err(to_ase)
     }
 
+    /// Reads exactly `count` bytes into a new buffer.
+    pub(crate) fn read_bytes(&mut self, count: usize) -> Result<Vec<u8>> {
+        let mut data = Vec::with_capacity(initial_capacity(count));
+        (&mut self.input)
+            .take(count as u64)
+            .read_to_end(&mut data)?;
+        if data.len() != count {
+            return Err(io::Error::new(
+                io::ErrorKind::UnexpectedEof,
+                "failed to fill whole buffer",
+            )
+            .into());
+        }
+        Ok(data)
+    }
+
     pub(crate) fn take_bytes(self, limit: usize) -> Result<Vec<u8>> {
-        let mut output = Vec::with_capacity(limit);
+        let mut output = Vec::with_capacity(initial_capacity(limit));
         self.input.take(limit as u64).read_to_end(&mut output)?;
         if output.len() != limit {
             Err(AsepriteParseError::InvalidInput(format!(
@@ -79,7 +100,7 @@ where
 
     pub(crate) fn unzip(self, expected_output_size: usize) -> Result<Vec<u8>> {
         let mut decoder = ZlibDecoder::new(self.input);
-        let mut buffer = Vec::with_capacity(expected_output_size);
+        let mut buffer = Vec::with_capacity(initial_capacity(expected_output_size));
         decoder.read_to_end(&mut buffer)?;
         Ok(buffer)
     }
